@@ -87,6 +87,12 @@ CLAIMS = {
         "Trusts the harness proto3 parser for the subset of the language the two files use, and google.golang.org/protobuf's reflection of the generated code.",
         "DESIGN.md §7 C17",
     ),
+    "C15": (
+        "property-based differential testing (rapid) against Maven's own model builder (maven-model-builder 3.8.7 in a JVM oracle server), plus a validity predicate over generated property tables for the interpolation clause",
+        "Generated POM lineages (root + 0-4 ancestors + 0-3 imported BOMs with their own ancestors, BOMs importing BOMs; chained and overriding properties, project.version/groupId/parent.* built-ins with and without pom./project. prefix, placeholders in versions, scopes, optional flags, key fields and exclusions, dependencyManagement with import scope, declarations repeated between child and parent and between model and profiles, profiles activated by default, by JDK version/negation/range, by OS name/family/arch/version with negation, by property, and by two criteria at once) are rendered to pom.xml text read by both sides. The library pipeline (decode, MergeProfiles, MergeParent up the chain, Interpolate, ProcessDependencies with the same pipeline applied to imported BOMs) must produce the same dependencies and managed dependencies, field by field and in order, as the effective model Maven builds for the same files under java.version 11.0.8 and the library's OS settings. Interpolation over arbitrary property tables (cycles, self-reference, undefined keys, unterminated placeholders) must return, expand every resolvable placeholder exactly as a fix-point reference does, and otherwise yield the input with some placeholders expanded and the rest left in place. Holds on everything explored apart from the listed known findings.",
+        "Trusts maven-model-builder 3.8.7 (Debian) as Maven; lineages on which Maven reports an error, and lineages whose Maven result still contains an unresolved placeholder (Maven keeps such entries, the library documents that it drops them), are outside the domain and counted. Same-list duplicates, OS families Maven does not enumerate, key placeholders colliding after interpolation and one-digit JDK prefixes are not generated: they are recorded findings replayed from their witnesses.",
+        "DESIGN.md §7 C15",
+    ),
     "C18": (
         "property-based differential testing (rapid) of the API-backed client against a harness-built in-memory client behind an in-process fake Insights service, structural predicates over the four client calls, and concurrent batches under the Go race detector",
         "Generated npm registries (scoped names, shuffled version lists with is_default, all four dependency sections plus bundleDependencies, npm: aliases incl. scoped targets, bundle trees to depth 3 incl. copies installed under an alias and packages unknown to the registry) are served by a fake pb.InsightsClient. For every version: every bundled entry is a package with the mangled name, one concrete version carrying DerivedFrom, required by its bundling parent with a requirement that MatchingVersions resolves to exactly that version, and Version/Versions/Requirements/MatchingVersions agree; aliases become requirements on the real name with KnownAs. npm resolution through the APIClient equals (harness isomorphism labeller) resolution over a LocalClient loaded from the generated model by the harness. A -race binary resolves up to 16 roots concurrently through one APIClient: no race report, every graph equals the sequential one. Holds on everything explored; interleavings are sampled, not enumerated.",
